@@ -26,6 +26,26 @@ CLAIMED = {
             "Each generated triple list runs all metric functions of the real crate; values are compared with independently recomputed ones on NFKC-stable text and judged on no-panic/range on arbitrary Unicode. Held on the executions listed in the evidence.",
             "trusted: the harness's own clean/LCS/Levenshtein/whitespace-operation references; value checks restricted to NFKC-stable, grapheme-safe text.",
             "DESIGN.md 6/C13"),
+    "C01": ("exploration",
+            "differential runtime oracle: real byte/char tokenizers vs an independent special-token scanner and character segmentation on seeded Unicode strings x tokenizer configs; decode round trip",
+            "Every generated (config, texts) case builds the real tokenizer and is judged against an independent reference scanner (byte) / per-character expectations (char) and the decode round trip. Held on the executions listed in the evidence.",
+            "trusted: unicode-segmentation for grapheme boundaries; overlapping special spellings are judged on the round trip only (segmentation not prescribed).",
+            "DESIGN.md 6/C01"),
+    "C04": ("exploration",
+            "exhaustive id sweep per generated tokenizer: vocab_size/get_vocab/id_to_token/token_to_id/de_tokenize consistency for byte, char and BPE tokenizers over generated special configs and merge tables incl. every max_vocab_size cut point",
+            "For each generated tokenizer every id in [0, vocab_size+300) and u32::MAX is checked against get_vocab; tokenizers are sampled, ids within one are enumerated. Held on the tokenizers listed in the evidence.",
+            "trusted: the merge-table generator's notion of well-formed; special spellings equal to regular tokens are excluded.",
+            "DESIGN.md 6/C04"),
+    "C08": ("exploration",
+            "differential monitoring of the real TrainLoader (hook H3): reference run vs thread/buffer variants under delay injection, rebuilt loaders (same and fresh process), all ranks of a world, limit/skip split, fast_forward restarts; streams compared as lists/multisets of item fingerprints",
+            "Each case runs the real loader 12-25 times on generated files and pipelines and compares the observed streams; held on the cases and loader runs listed in the evidence. Thread schedules of the three-layer loader are perturbed (threads, buffers, injected delays), not controlled.",
+            "trusted: global line order for a (strategy, seed) comes from the repo's own generator (C07); fast_forward(k) read as 'items with global index >= k'.",
+            "DESIGN.md 6/C08"),
+    "C17": ("exploration",
+            "runtime structural oracle: group partition sums, sparse COO index bijection and per-group weight sums, padded matrices vs item values, on seeded strings, byte configs and batches",
+            "Every generated batch runs the real tokenizer / token_groups_to_sparse_coo_matrix / padding_mask / tensorize and is judged by structural invariants recomputed independently. Held on the executions listed in the evidence.",
+            "trusted: unicode-segmentation; padding-mask polarity and matrix width are left free as the statement does not fix them.",
+            "DESIGN.md 6/C17"),
 }
 
 PENDING_REASON = "monitor not built yet in this session (planned in DESIGN.md section 6); not claimed until its check exists and is silent on the unchanged tree"
